@@ -36,6 +36,10 @@ def exact_mass(rng, lo, hi):
 def cases(tier, rng):
     n = 160 if tier == "quick" else 20000
     out = []
+    # anchors: the beta0 identities on fixed-flavour schemes with two or three massive quarks (their intrinsic rows included)
+    for k, (nfff, proc) in enumerate(((3, "NC"), (4, "NC"), (3, "CC"), (3, "EM"))):
+        out.append(dict(id=f"c06-b{k}", mode="beta0", theory=dict(FNS="FFNS", NfFF=nfff, mc=1.4, mb=4.5, mt=170.0, kcThr=1.0, kbThr=1.0, ktThr=1.0),
+                        points=[dict(Q2=cards.logu(rng, 30.0, 3e3), cls="random") for _ in range(2)], process=proc))  # fmt: skip
     for i in range(n):
         scheme = cards.pick(rng, ["ZM-VFNS"] * 3 + cards.SCHEMES)
         nfff = int(rng.integers(3, 7)) if scheme in ("FFNS", "FFN0") else int(rng.integers(3, 6))
